@@ -129,14 +129,21 @@ func (l *Lin) equal(o *Lin) bool {
 // key is a canonical text form (atom ids, not names).
 func (l *Lin) key() string {
 	buf := make([]byte, 0, 16+12*len(l.T))
-	buf = l.C.Append(buf, 32)
+	buf = appendBig(buf, l.C)
 	for _, a := range l.atoms() {
 		buf = append(buf, '|')
 		buf = strconv.AppendInt(buf, int64(a), 32)
 		buf = append(buf, '*')
-		buf = l.T[a].Append(buf, 32)
+		buf = appendBig(buf, l.T[a])
 	}
 	return string(buf)
+}
+
+func appendBig(buf []byte, x *big.Int) []byte {
+	if x.IsInt64() {
+		return strconv.AppendInt(buf, x.Int64(), 32)
+	}
+	return x.Append(buf, 32)
 }
 
 // normIneq divides an inequality by the gcd of its coefficients (tightening the
